@@ -73,7 +73,8 @@ fn dispatch_inner(prop: &str, ctx: Ctx, replay: Option<&str>) -> i32 {
         }
         "C05" => {
             crate::run::start_watchdog(std::time::Duration::from_secs(ctx.tier.pick(180, 1800)), None);
-            let rep = c05::run(ctx);
+            let mut rep = c05::run(ctx);
+            rep.merge(c05::run_e2e(ctx));
             finish(rep, c05::meta(), ctx.tier, ctx.seed, started)
         }
         "C11" => {
